@@ -18,7 +18,7 @@ def G_of(case):
     return {int(k): [int(v) for v in a] for k, a in case["G"]}
 
 class C09(Prop):
-    translators = ['flow', 'bip']   # ford_fulkerson / dfs_path, the result packaging, convert_bipartite_graph_to_flow_network and the matching read-off regenerated from flow.py on every run
+    translators = ['flow', 'bip', 'validators']   # ford_fulkerson / dfs_path, the result packaging, convert_bipartite_graph_to_flow_network and the matching read-off regenerated from flow.py on every run
     pid = "C09"
     sources = ["socialchoicekit/flow.py", "socialchoicekit/utils.py"]
     groups = {"bip": Group("bip", "From SCK Require Import FlowModel BipModel RunBip.", "RunBip.bip_case", "RunBip.chk_bip")}
